@@ -213,6 +213,28 @@ func runCHSite(r *Run, s *chSite) {
 						continue
 					}
 					h := staticCallee(c)
+					if h == nil && !c.Call.IsInvoke() {
+						// a constructor looked up in a package-level table of functions: every entry may be the callee
+						var lk *ssa.Lookup
+						switch x := c.Call.Value.(type) {
+						case *ssa.Extract:
+							lk, _ = x.Tuple.(*ssa.Lookup)
+						case *ssa.Lookup:
+							lk = x
+						}
+						if lk != nil {
+							if u, ok := lk.X.(*ssa.UnOp); ok {
+								if g, ok := u.X.(*ssa.Global); ok {
+									for _, tf := range r.P.funcTable(g) {
+										if tf != nil && tf.Blocks != nil && len(tf.Blocks) <= 12 {
+											tail[tf] = true
+										}
+									}
+								}
+							}
+						}
+						continue
+					}
 					if h == nil || h.Blocks == nil || h == fn || pkgOfFunc(h) != pkgOfFunc(fn) || len(h.Blocks) > 12 || strings.Contains(exp.String(), h.Name()) {
 						continue
 					}
